@@ -23,7 +23,21 @@ def unit(name):
 
 def q(spec):
     """{'v': float, 'u': 'MHz'} -> Quantity"""
+    k = spec.get("k")
+    if k == "i8":  # the same number held in an integer-dtype Quantity
+        return u.Quantity(int(spec["v"]), unit(spec["u"]), dtype=np.int64)
+    if k == "f4":
+        return u.Quantity(np.float32(spec["v"]), unit(spec["u"]), dtype=np.float32)
     return spec["v"] * unit(spec["u"])
+
+
+def qkind(v, pick):
+    """value-preserving dtype variant of a quantity spec value: pick 0 -> int64 when integral, 1 -> float32 when exactly representable"""
+    if pick == 0 and float(v).is_integer() and abs(v) < 2**53:
+        return "i8"
+    if pick == 1 and float(np.float32(v)) == v:
+        return "f4"
+    return None
 
 
 def fq(spec):
